@@ -380,7 +380,38 @@ func (ex *Exec) sortSlice(fr *Frame, args []Value, g *T, name string) {
 	s := iv.c[0].v.(SliceV)
 	less := args[1]
 	if s.len.hi > 12 {
-		unsup("%s: length may exceed 12 (pdqsort beyond insertion sort is not modelled)", name)
+		// longer slices: run the standard library's real pdqsort_func from its SSA body, with the
+		// user's less function and an engine-provided element swapper (reflectlite.Swapper natively)
+		sp := ex.prog.ImportedPackage("sort")
+		if sp == nil || sp.Func("pdqsort_func") == nil || name != "sort.Slice" {
+			unsup("%s: length may exceed 12 and sort.pdqsort_func is not available", name)
+		}
+		ex.stub("sort.Slice (len > 12) = the real sort.pdqsort_func SSA body with an engine-provided swapper")
+		swap := FuncV{[]FC{{g: TT, native: func(fr2 *Frame, a []Value, gg *T) Value {
+			x, y := a[0].(*T), a[1].(*T)
+			vx, vy := ex.readSlice(s, x), ex.readSlice(s, y)
+			ex.writeSlice(fr2, s, x, vy, gg)
+			ex.writeSlice(fr2, s, y, vx, gg)
+			return nil
+		}}}}
+		data := StructV{[]Value{less, swap}}
+		n := s.len
+		var limit *T
+		if isC(n) {
+			l := 0
+			for v := uint64(n.k); v != 0; v >>= 1 {
+				l++
+			}
+			limit = I(int64(l))
+		} else {
+			unsup("%s: symbolic length above 12", name)
+		}
+		_, p := ex.callFn(fr, sp.Func("pdqsort_func"), []Value{data, I(0), n, limit}, nil, g)
+		if p != FF {
+			fr.panicked = Or(fr.panicked, p)
+			fr.g = And(fr.g, Not(p))
+		}
+		return
 	}
 	ex.stub("sort.Slice = insertion sort (exact for len <= 12, which is what pdqsort_func runs)")
 	H := int(s.len.hi)
